@@ -4,6 +4,7 @@ property statements over the implementation's log - they never look at the model
 import json
 
 import common as C
+from cli_args import cli_argv
 
 E_NORESULT, E_TIMEOUT, E_DEP = 0, 1, 2
 EXC_NAMES = {0: "NoResultError", 1: "TimeoutError", 2: "LookupError", 3: "ValueError", 4: "CustomError",
@@ -13,6 +14,8 @@ HOOK_COQ = {"pre_send": "HPreSend", "post_send": "HPostSend", "pre_execute": "HP
 HOOKS_MSG = ("pre_send", "pre_execute")
 HOOKS_RES = ("on_error", "post_execute", "post_save")
 HOOKS_ALL = ("pre_send", "post_send", "pre_execute", "on_error", "post_execute", "post_save")
+KICK_COQ = {"ok": "KickOk", "dumps_fail": "DumpsFail", "kick_fail": "KickFail", "kick_fail_broker": "KickFail",
+            "kick_fail_sub": "KickFail", "kick_fail_send": "KickFail"}
 ACK_COQ = {"when_received": "AckReceived", "when_executed": "AckExecuted", "when_saved": "AckSaved", None: "AckSaved"}
 
 
@@ -249,7 +252,7 @@ def c_case(case, obs):
         return "(let st := %s in (%s, %s))" % (c_stack(case["mws"], lt), C.clist(cs), C.clist(g))
     cs = []
     for S in case["sends"]:
-        k = {"ok": "KickOk", "dumps_fail": "DumpsFail", "kick_fail": "KickFail"}[S.get("kick", "ok")]
+        k = KICK_COQ[S.get("kick", "ok")]
         cs.append("(%s, %s)" % (c_msg(S["id"], lt.norm(S["labels"]), lt.tmo(S["labels"])), k))
     return "(let st := %s in (st, %s, %s))" % (c_stack(case["mws"], lt), C.clist(cs), C.clist(g))
 
@@ -335,7 +338,7 @@ def coq_show(ctx, case, obs):
     else:
         body = "Definition st := %s.\n" % c_stack(case["mws"], lt)
         for i, S in enumerate(case["sends"]):
-            k = {"ok": "KickOk", "dumps_fail": "DumpsFail", "kick_fail": "KickFail"}[S.get("kick", "ok")]
+            k = KICK_COQ[S.get("kick", "ok")]
             body += "Eval vm_compute in (%d, kiq st %s %s).\n" % (i, c_msg(S["id"], lt.norm(S["labels"]), lt.tmo(S["labels"])), k)
     rc, out = C.coq_eval_raw(ctx, "show", COQ_HEADER + "\n" + body)
     return out
@@ -471,6 +474,12 @@ def oracle_c07(case, per, late, fail):
             (any(w[0] for w in want) and any(h["act"] == "nores" for _, h in class_hooks(case, "on_error")))
         nores_possible = subst or any(w == (True, None, E_NORESULT) for w in want)
         nores_certain = subst or all(w == (True, None, E_NORESULT) for w in want)
+        # "a failing result backend never prevents the message from completing processing": processing of an ackable
+        # message under when_saved is complete only once it has been acknowledged
+        if any(e[0] == "save.raise" for e in evs) and M["ackable"] in ("sync", "async") \
+                and (case.get("ack_type") or "when_saved") == "when_saved" and not any(e[0] == "ack" for e in evs):
+            fail("result backend failure prevented the message from completing processing (never acknowledged)", sig, evs)
+            continue
         if not saves:
             if not nores_possible:
                 fail("no result stored although the outcome is not the no-result signal", sig, evs)
@@ -612,7 +621,7 @@ def oracle_c10_send(case, per, fail):
                 fail("post_send fired although sending failed", sig, evs)
             elif not any(e[0] == "crash" and e[1] == "SendTaskError" for e in evs):
                 fail("a failed send did not surface as SendTaskError", sig, evs)
-            elif kick == "kick_fail" and (len(kicks) != 1 or (kicks[0][1], ckey(kicks[0][2])) != cur):
+            elif kick.startswith("kick_fail") and (len(kicks) != 1 or (kicks[0][1], ckey(kicks[0][2])) != cur):
                 fail("broker did not receive exactly the message produced by the pre_send chain", sig, evs)
 
 
@@ -690,6 +699,15 @@ def gen_recv(r, focus="c02", allow_d10=True):
     if r.random() < .3:
         case["executor"] = r.choice(["eager", "lazy"])
     ids = r.sample(range(10), nm)
+    if nm > 1 and r.random() < .15:
+        # redelivery: a second delivery of a message (same task id) while the first one may still be running
+        a, b = r.sample(range(nm), 2)
+        ids[b] = ids[a]
+    if r.random() < .3:
+        # the worker is configured through its command line: argparse -> WorkerArgs -> start_listen -> Receiver(...)
+        at = case["ack_type"]
+        case["cli"] = cli_argv(dict(ack_type=None if at is None else r.choice([at, at, at.upper(), at.title()]),
+                                    no_propagate=not case["propagate"]))
     msgs = []
     for i in range(nm):
         k = r.random()
@@ -748,7 +766,8 @@ def gen_send(r):
     case = dict(type="send", labels=tbl, mws=gen_mws(r, tbl, "send", p_raise=.06), sends=[])
     for i in range(ns):
         case["sends"].append(dict(id=ids[i], labels=r.randrange(len(tbl)), arrive=g_susp(r), kick_susp=g_susp(r),
-                                  kick=r.choice(["ok", "ok", "ok", "kick_fail", "dumps_fail"])))
+                                  kick=r.choice(["ok", "ok", "ok", "ok", "kick_fail", "dumps_fail", "kick_fail_broker",
+                                                 "kick_fail_sub", "kick_fail_send"])))
     return case
 
 
@@ -756,6 +775,9 @@ def gen_send(r):
 def count_recv(rep, case, per, late):
     at = case.get("ack_type") or "default(when_saved)"
     rep.count("messages:%d" % len(case["msgs"]))
+    rep.count("config:via-command-line" if case.get("cli") is not None else "config:direct")
+    if len({M["id"] for M in case["msgs"]}) < len(case["msgs"]):
+        rep.count("redelivery(same task id, concurrent)")
     rep.count("stack:%d" % len(case["mws"]))
     for i, M in enumerate(case["msgs"]):
         evs = per[i]
